@@ -9,7 +9,7 @@ import (
 func init() {
 	register(&Property{
 		ID: "C01", Level: "exploration", Builds: []string{"plain"},
-		Rule: "cases = seeded operand pairs (A,B) composed from 26 chunk archetypes x key-layout relations (identical, disjoint-interleaved, nested, suffix, single interior key, random; up to 60 keys) x 11 storage forms each; every case runs And/Or/Xor/AndNot in static form, in-place on a plain clone, in-place on a copy-on-write clone, directly on a zero-copy receiver, with the same object on both sides, plus AndCardinality/OrCardinality/Intersects; plus ALL ordered pairs of subsets of an 8-value boundary domain (65536 pairs) in 3 storage forms. Non-trivial: both operands non-empty; distinct = hash of (A,B,forms).",
+		Rule:        "cases = seeded operand pairs (A,B) composed from 26 chunk archetypes x key-layout relations (identical, disjoint-interleaved, nested, suffix, single interior key, random; up to 60 keys) x 11 storage forms each; every case runs And/Or/Xor/AndNot in static form, in-place on a plain clone, in-place on a copy-on-write clone, directly on a zero-copy receiver, with the same object on both sides, plus AndCardinality/OrCardinality/Intersects; plus ALL ordered pairs of subsets of an 8-value boundary domain (65536 pairs) in 3 storage forms. Non-trivial: both operands non-empty; distinct = hash of (A,B,forms).",
 		Assumptions: []string{"interval-set model validated by selfcheck", "operand storage forms are produced with the library itself and verified against the model before use"},
 		Units: []Unit{
 			{Name: "pairs", Quick: 5000, Thorough: 400000, Run: c01Pairs},
